@@ -262,9 +262,6 @@ class WSStream:
             # Cleanup if required
             if self.state == ASGIWebsocketState.HANDSHAKE:
                 await self._send_error_response(500)
-                await self.config.log.access(
-                    self.scope, {"status": 500, "headers": []}, time() - self.start_time
-                )
             elif self.state == ASGIWebsocketState.CONNECTED:
                 await self._send_wsproto_event(CloseConnection(code=CloseReason.INTERNAL_ERROR))
             await self.send(StreamClosed(stream_id=self.stream_id))
